@@ -65,11 +65,20 @@ void h_u_applypatch_b(void)
     if (!open_case)
     {
         __CPROVER_assert((status == 0) == (want_ok != 0), "C16 status 0 exactly when RFC 6902 evaluation succeeds (missing member, missing op/path/value/from, wrong member type, failed test => non-zero)");
-        {   /* the document equals the RFC result (as a key/value set, order as the model predicts) and is a well-formed object */
-            cJSON *c = doc->child, *last = NULL; unsigned cnt = 0;
+        {   /* the document equals the RFC result as a key/value SET (member order is not part of the property) and is a well-formed object */
+            cJSON *c = doc->child, *last = NULL; unsigned cnt = 0, j;
             __CPROVER_assert((doc->type & 0xFF) == cJSON_Object, "C16 document still an object");
-            for (i = 0; i < 4; i++) { if (c == NULL) break; __CPROVER_assert(cnt < M.n && c->string != NULL && c->string[0] == M.k[cnt < 3 ? cnt : 0] && c->string[1] == 0 && c->valueint == M.v[cnt < 3 ? cnt : 0] && (last == NULL || c->prev == last), "C16 document equals the RFC 6902 result"); last = c; cnt++; c = c->next; }
-            __CPROVER_assert(cnt == M.n && (M.n == 0 || doc->child->prev == last), "C16 C19 same members; well-formed container afterwards");
+            for (i = 0; i < 4; i++) { if (c == NULL) break; __CPROVER_assert(c->string != NULL && c->string[1] == 0 && (last == NULL || c->prev == last), "C16 C19 members keyed, back links mirror"); last = c; cnt++; c = c->next; }
+            __CPROVER_assert(cnt == M.n && (M.n == 0 || doc->child->prev == last), "C16 C19 same number of members; well-formed container afterwards");
+            for (j = 0; j < 3; j++)
+            {
+                if (j < M.n)
+                {
+                    char k[2]; cJSON *m; k[0] = M.k[j]; k[1] = 0;
+                    m = cJSON_GetObjectItemCaseSensitive(doc, k);
+                    __CPROVER_assert(m != NULL && m->valueint == M.v[j], "C16 document equals the RFC 6902 result (same keys, same values)");
+                }
+            }
         }
     }
     /* robustness for every patch: nothing leaks, nothing is released twice (CBMC double-free obligations): delete everything and balance the ledger */
